@@ -86,7 +86,13 @@ class Gamma(object):
             return True, [2 ** 40, 2 ** 35 + 1][salt % 2]
         if d == "code":
             return True, "```operator.add(1, 2)```"
+        if d == "expr":
+            return True, "```max(1, 2)```"
         # outcomes of named deviations
+        if d == "expr_requoted":
+            return True, "'```max(1, 2)```'"
+        if d == "none_requoted":
+            return True, "'```(None)```'"
         if d == "str_paren_None":
             return True, "(None)"
         if d == "str_None":
